@@ -42,19 +42,60 @@ def J():
 
 
 _grids = {}
-def grid_of(g):
+_mesh = {}
+def _impl(name):
     jax, jnp, filtering, sh, ti = J()
+    F = sh.FastSphericalHarmonics
+    return {'real': sh.RealSphericalHarmonics, 'fast': F, 'fast4': functools.partial(F, base_shape_multiple=4),
+            'fast8': functools.partial(F, base_shape_multiple=8),
+            'fast_unstacked': functools.partial(F, stacked_fourier_transforms=False),
+            'fast4_stacked': functools.partial(F, base_shape_multiple=4, stacked_fourier_transforms=True),
+            'fast_mesh': F}[name]
+
+
+def new_grid(g):
+    """A fresh Grid instance (nothing cached yet)."""
+    jax, jnp, filtering, sh, ti = J()
+    kw = {}
+    if g['impl'] == 'fast_mesh':
+        if 'm' not in _mesh:
+            _mesh['m'] = jax.sharding.Mesh(np.array(jax.devices()[:8]).reshape(2, 2, 2), ('z', 'x', 'y'))
+        kw['spmd_mesh'] = _mesh['m']
+    return sh.Grid(longitude_wavenumbers=g['M'], total_wavenumbers=g['L'], longitude_nodes=3 * g['M'] + 1,
+                   latitude_nodes=(3 * g['L'] + 1) // 2, radius=g['radius'], spherical_harmonics_impl=_impl(g['impl']), **kw)
+
+
+def grid_of(g):
     key = (g['M'], g['L'], g['impl'], g['radius'])
     if key not in _grids:
-        impl = {'real': sh.RealSphericalHarmonics, 'fast': sh.FastSphericalHarmonics,
-                'fast4': functools.partial(sh.FastSphericalHarmonics, base_shape_multiple=4)}[g['impl']]
-        _grids[key] = sh.Grid(longitude_wavenumbers=g['M'], total_wavenumbers=g['L'], longitude_nodes=3 * g['M'] + 1,
-                              latitude_nodes=(3 * g['L'] + 1) // 2, radius=g['radius'], spherical_harmonics_impl=impl)
+        _grids[key] = new_grid(g)
     return _grids[key]
 
 
-def lw_of(grid):
-    return [int(v) for v in np.asarray(grid.modal_axes[1])]
+def _ceil_to(n, m):
+    return -(-n // m) * m
+
+
+def expected_layout(g):
+    """(modal_shape, total-wavenumber axis) from the documented layout rules, independently of the implementation:
+    Real: (2M-1, L), l = 0..L-1.  Fast: (2M, L) rounded up to multiples of (2*base*x_shards, base*y_shards),
+    l = 0..L-1 followed by zeros on the padding; base = 1, 4, 8, or 8 under model parallelism (mesh 2x2x2)."""
+    M, L = g['M'], g['L']
+    if g['impl'] == 'real':
+        return (2 * M - 1, L), list(range(L))
+    base, xs, ys = {'fast': (1, 1, 1), 'fast4': (4, 1, 1), 'fast8': (8, 1, 1), 'fast_unstacked': (1, 1, 1),
+                    'fast4_stacked': (4, 1, 1), 'fast_mesh': (8, 2, 2)}[g['impl']]
+    Lp = _ceil_to(L, base * ys)
+    return (_ceil_to(2 * M, 2 * base * xs), Lp), list(range(L)) + [0] * (Lp - L)
+
+
+def lw_of(ctx, g, grid):
+    """The implementation's total-wavenumber axis, checked against the independent layout rule (which is what the
+    model and the oracles then use)."""
+    shape, lw = expected_layout(g)
+    ctx.exact('modal_shape (independent layout rule)', [int(v) for v in grid.modal_shape], list(shape))
+    ctx.exact('modal_axes[1] (independent layout rule)', [int(v) for v in np.asarray(grid.modal_axes[1])], lw)
+    return lw
 
 
 def fexp(q):
@@ -63,15 +104,25 @@ def fexp(q):
     return math.exp(x) if x > -745.0 else 0.0
 
 
+IMPLS = ['real', 'fast', 'fast4', 'fast8', 'fast_unstacked', 'fast4_stacked', 'fast_mesh']
 def rand_grid(rng, tier):
-    impl = ['real', 'fast', 'fast4'][int(rng.integers(0, 3))]
+    impl = IMPLS[int(rng.integers(0, len(IMPLS)))]
     L = int(rng.integers(2, 10 if tier == 'quick' else 14))
-    M = int(rng.integers(1, min(L, 5) + 1))
+    M = int(rng.integers(1, 7))          # M > L, M = L, L > M + 1 all occur
     return {'M': M, 'L': L, 'impl': impl, 'radius': [1.0, 2.0, 0.5, 6.371][int(rng.integers(0, 4))]}
 
 
 def pick(rng, xs):
     return xs[int(rng.integers(0, len(xs)))]
+
+
+def pick_pc(rng, ords):
+    """(order, cutoff): orders above 18 only with dyadic cutoffs, so that the exact rational power in the extracted
+    model (numerators of 2*order*53 bits, reduced after every product) stays cheap."""
+    p = pick(rng, ords)
+    c = pick(rng, CUT if p <= 18 else [0.0, 0.25, 0.5, 0.875])
+    if p > 3 and c in (0.99, 0.999): c = 0.9
+    return p, c
 
 
 ATT = [0.0, 0.5, 1.0, 16.0, 2.75, 50.0, 300.0, 1000.0, 1e4, 1e6, 87.5, 1e-3]
@@ -143,15 +194,42 @@ def generate(ctx):
         yield 'array_strength', {'grid': g, 'kind': 'expstep', 'strengths': [0.25, 0.004, 0.001], 'par': [0.5, 1, 0.0], 'lead': 4, 'K': 1, 'dseed': 19}   # dt/tau = 2, 125, 500
         yield 'array_strength', {'grid': g, 'kind': 'exp', 'strengths': [16.0, 100.0, 1e4], 'par': [2, 0.25], 'lead': 3, 'K': 1, 'dseed': 20}
         yield 'array_strength', {'grid': g, 'kind': 'hdstep', 'strengths': [2.0, 0.005], 'par': [0.5, 1], 'lead': 4, 'K': 2, 'dseed': 21}                  # dt/tau = 0.25, 100
+    # explicit purity / repeated construction on one Grid instance; pairs of grids differing in ONE option, both orders
+    base = {'M': 3, 'L': 5, 'impl': 'fast4', 'radius': 2.0}
+    pairs = [(base, dict(base, radius=1.0)), (base, dict(base, impl='fast8')), (base, dict(base, impl='real')),
+             (dict(base, impl='fast'), dict(base, impl='fast_unstacked')), (base, dict(base, L=6)), (base, dict(base, M=4)),
+             (dict(base, impl='fast_mesh'), dict(base, impl='fast8')), (dict(base, impl='fast4_stacked'), base)]
+    for i, (ga, gb) in enumerate(pairs if not quick else pairs[:5] + pairs[6:7]):
+        yield 'purity', {'gridA': ga, 'gridB': gb, 'first': 'A', 'jit': int(i == 0), 'dseed': 30 + i}
+        if not quick or i < 2:
+            yield 'purity', {'gridA': gb, 'gridB': ga, 'first': 'B', 'jit': 0, 'dseed': 40 + i}
+    # layouts: padded with base 8, mesh 2x2x2 (base 8, 2 y-shards), tall and wide truncations, M > L
+    layouts = [{'M': 3, 'L': 9, 'impl': 'fast8', 'radius': 1.0}, {'M': 2, 'L': 5, 'impl': 'fast_mesh', 'radius': 2.0},
+               {'M': 2, 'L': 70, 'impl': 'real', 'radius': 1.0}, {'M': 33, 'L': 3, 'impl': 'fast4', 'radius': 0.5},
+               {'M': 6, 'L': 3, 'impl': 'fast', 'radius': 1.0}, {'M': 1, 'L': 2, 'impl': 'fast8', 'radius': 1.0}]
+    for j, g in enumerate(layouts if not quick else layouts[:4]):
+        yield 'defaults', {'grid': g, 'dt': [0.25, 0.010938 * 16, 1.5, 0.001][j % 4]}
+        yield 'hdstep', {'grid': g, 'dt': 0.5, 'tau': 0.25, 'order': 1 + j % 2, 'dseed': 50 + j}
+        yield 'tree', {'grid': g, 'kind': ['exp', 'hdstep', 'expstep', 'hd'][j % 4], 'par': [[16.0, 18, 0.0], [0.5, 2.0, 1], [0.5, 0.25, 2, 0.25], [0.01, 2]][j % 4],
+                       'K': 2, 'dseed': 60 + j}
+        yield 'array_order', {'grid': g, 'a': 16.0, 'c': [0.0, 0.25][j % 2], 'orders': [1, 2, 18] if j % 2 else [3, 1]}
+    yield 'array_strength', {'grid': g1, 'kind': 'hd', 'strengths': [0.01, 0.02, 0.005], 'par': [1], 'lead': 4, 'K': 3, 'dseed': 70}    # T == K
+    yield 'array_strength', {'grid': g0, 'kind': 'expstep', 'strengths': [0.25, 0.004], 'par': [0.5, 2, 0.25], 'lead': 4, 'K': 2, 'dseed': 71}  # T == K
+    for j, (ss, shapes) in enumerate([([2, 1, 3], [[], [1, 2, 3], [2, 2, 3], [3], [2, 1, 3], [5, 2, 4, 3], [2, 2, 1], [4]]),
+                                      ([3], [[], [1], [3], [2, 3], [3, 2], [1, 3], [4, 1, 3]]),
+                                      ([1], [[], [1], [3], [2, 3]]), ([], [[], [2], [1, 1]]), ([2, 3], [[3], [2, 3], [1, 3], [4, 2, 3], [2, 1]])]):
+        yield 'make_filter', {'sshape': ss, 'shapes': shapes, 'jnp': j % 2, 'dseed': 80 + j}
     n = 6 if quick else 60
     for _ in range(n):
         g = rand_grid(rng, ctx.tier)
         ctx.count('impl=' + g['impl']); ctx.count('L=%d' % g['L'])
-        yield 'expfilter', {'grid': g, 'a': pick(rng, ATT), 'p': pick(rng, ORD), 'c': pick(rng, CUT), 'K': int(rng.integers(1, 3))}
+        p_, c_ = pick_pc(rng, ORD)
+        yield 'expfilter', {'grid': g, 'a': pick(rng, ATT), 'p': p_, 'c': c_, 'K': int(rng.integers(1, 3))}
         yield 'hdfilter', {'grid': g, 'scale': pick(rng, SCALE), 'order': pick(rng, HORD), 'K': int(rng.integers(1, 3))}
         for _r in range(3):
             tau = pick(rng, TAU)
-            yield 'expstep', {'grid': g, 'dt': pick(rng, RATIO) * tau, 'tau': tau, 'p': pick(rng, [1, 2, 3, 18, 1, 32]), 'c': pick(rng, CUT),
+            p_, c_ = pick_pc(rng, [1, 2, 3, 18, 1, 32])
+            yield 'expstep', {'grid': g, 'dt': pick(rng, RATIO) * tau, 'tau': tau, 'p': p_, 'c': c_,
                               'leapfrog': int(rng.integers(0, 2)), 'dseed': int(rng.integers(0, 2 ** 31))}
             tau = pick(rng, TAU)
             yield 'hdstep', {'grid': g, 'dt': pick(rng, RATIO) * tau, 'tau': tau, 'order': pick(rng, HORD),
@@ -296,7 +374,7 @@ def _apply(ctx, clause, fn, *xs):
 
 def r_expfilter(ctx, a):
     jax, jnp, filtering, sh, ti = J()
-    grid = grid_of(a['grid']); lw = lw_of(grid); L = len(lw)
+    grid = grid_of(a['grid']); lw = lw_of(ctx, a['grid'], grid); L = len(lw)
     ctx.exact('modal_shape[1] == len(total wavenumbers)', [int(grid.modal_shape[1])], [L])
     exps = ctx.model.call(2, [L, a['p']] + lw, [[a['a'], a['c']]])
     f = filtering.exponential_filter(grid, a['a'], a['p'], a['c'])
@@ -313,7 +391,7 @@ def r_expfilter(ctx, a):
 
 def r_hdfilter(ctx, a):
     jax, jnp, filtering, sh, ti = J()
-    grid = grid_of(a['grid']); lw = lw_of(grid); L = len(lw); r = float(grid.radius)
+    grid = grid_of(a['grid']); lw = lw_of(ctx, a['grid'], grid); L = len(lw); r = float(a['grid']['radius'])
     eig = ctx.model.call(12, [L, 0] + lw, [[r]])
     ev = np.asarray(grid.laplacian_eigenvalues, dtype=np.float64)
     ctx.corr('laplacian_eigenvalues', ev, eig[:L], scale=float(np.abs(ev).max()) + 1e-300)
@@ -335,7 +413,7 @@ def _data(rng, shape):
 
 def r_expstep(ctx, a):
     jax, jnp, filtering, sh, ti = J()
-    grid = grid_of(a['grid']); lw = lw_of(grid); L = len(lw)
+    grid = grid_of(a['grid']); lw = lw_of(ctx, a['grid'], grid); L = len(lw)
     rng = np.random.default_rng(a['dseed'])
     exps = ctx.model.call(4, [L, a['p']] + lw, [[a['dt'], a['tau'], a['c']]])
     tab = [Fraction(fexp(q)) for q in exps]
@@ -369,7 +447,7 @@ def r_expstep(ctx, a):
 
 def r_hdstep(ctx, a):
     jax, jnp, filtering, sh, ti = J()
-    grid = grid_of(a['grid']); lw = lw_of(grid); L = len(lw); r = float(grid.radius)
+    grid = grid_of(a['grid']); lw = lw_of(ctx, a['grid'], grid); L = len(lw); r = float(a['grid']['radius'])
     rng = np.random.default_rng(a['dseed'])
     exps = ctx.model.call(5, [L, a['order']] + lw, [[a['dt'], a['tau'], r]])
     tab = [Fraction(fexp(q)) for q in exps]
@@ -399,10 +477,9 @@ def r_hdstep(ctx, a):
     ctx.oracle('clock leaf untouched by step filter', float(y_full['t']) == 3.5 and np.shape(y_full['t']) == ())
 
 
-def _scalar_filter(a_kind, grid, par):
+def _scalar_filter(a_kind, grid, par, r):
     """(filter on pytrees, model command, ints-tail, params) for scalar strengths."""
     jax, jnp, filtering, sh, ti = J()
-    r = float(grid.radius)
     if a_kind == 'exp':
         att, p, c = par
         return filtering.exponential_filter(grid, att, int(p), c), 2, int(p), [att, c]
@@ -431,9 +508,9 @@ def _leaf_check(ctx, name, sc_shape, sc_flat, leaf, out):
 
 def r_tree(ctx, a):
     jax, jnp, filtering, sh, ti = J()
-    grid = grid_of(a['grid']); lw = lw_of(grid); L = len(lw); Mm = int(grid.modal_shape[0]); K = a['K']
+    grid = grid_of(a['grid']); lw = lw_of(ctx, a['grid'], grid); L = len(lw); Mm = int(grid.modal_shape[0]); K = a['K']
     rng = np.random.default_rng(a['dseed'])
-    f, cmd, p, pars = _scalar_filter(a['kind'], grid, a['par'])
+    f, cmd, p, pars = _scalar_filter(a['kind'], grid, a['par'], float(a['grid']['radius']))
     exps = ctx.model.call(cmd, [L, p] + lw, [pars])
     sc = [fexp(q) for q in exps]
     shapes = [[], [1], [L], [3], [Mm, L], [K, Mm, L], [2, K, Mm, L], [5, L], [L, 3], [K, Mm, 1], [2 * Mm, L + 1], [1, 1], [L, L]]
@@ -463,6 +540,7 @@ def r_tree(ctx, a):
             ctx.oracle_close('spectral leaves (.., L) are multiplied by the factor of their total wavenumber', np.asarray(y), want,
                              scale=float(np.abs(np.asarray(x)).max()) + 1e-300)
     _int_leaves(ctx, a['kind'], f, L, Mm, K, sc, clause)
+    _form_leaves(ctx, a['kind'], f, L, Mm, K, sc, lw, rng, clause)
 
 
 def _int_leaves(ctx, name, f, L, Mm, K, sc, clause):
@@ -492,9 +570,49 @@ def _int_leaves(ctx, name, f, L, Mm, K, sc, clause):
         ctx.count('int leaf spectral:%d' % spectral)
 
 
+def _np_rescale(x, sc, L):
+    """Independent reference: numpy broadcasting of the (L,) scaling on leaves (.., L); everything else unchanged."""
+    x = np.asarray(x)
+    if x.ndim >= 1 and x.shape[-1] == L:
+        return x.astype(np.float64) * np.asarray(sc, dtype=np.float64)
+    return x
+
+
+def _form_leaves(ctx, name, f, L, Mm, K, sc, lw, rng, clause):
+    """float32 leaves, read-only and strided views, rank 5, structured spectra (zeros, one-hot at the top wavenumber)."""
+    jax, jnp, filtering, sh, ti = J()
+    top = int(np.argmax(np.asarray(lw)))
+    onehot = np.zeros((K, Mm, L)); onehot[0, 0, top] = 1.0; onehot[K - 1, Mm - 1, top] = -2.0
+    ro = _data(rng, [Mm, L]); ro.setflags(write=False)
+    big = _data(rng, [2 * K, Mm, 2 * L])
+    tree = {'f32': _data(rng, [K, Mm, L]).astype(np.float32), 'f32j': jnp.asarray(_data(rng, [Mm, L]), dtype=jnp.float32),
+            'f32clock': np.float32(2.5), 'readonly': ro, 'strided': big[::2, :, ::2], 'transposed': _data(rng, [L, Mm]).T,
+            'rank5': _data(rng, [2, 2, K, Mm, L]), 'zeros': np.zeros((Mm, L)), 'onehot_top': onehot,
+            'nonspectral_view': big[:, :, 1:2 * L:2][..., :max(L - 1, 1)] if L > 2 else np.asarray(4.5)}
+    before = {k: np.array(v, copy=True) for k, v in tree.items()}
+    out, ok = _apply(ctx, clause, f, tree)
+    if not ok: return
+    for k, x in tree.items():
+        y = out[k]
+        ctx.oracle('filters do not modify their input leaves', np.array_equal(np.asarray(x), before[k]), {'leaf': k})
+        _leaf_check(ctx, name + ' leaf ' + k, [L], sc, x, y)
+        want = _np_rescale(before[k], sc, L)
+        if want.ndim >= 1 and want.shape[-1] == L:
+            ctx.oracle_close('spectral leaves (.., L) are multiplied by the factor of their total wavenumber', np.asarray(y, dtype=np.float64),
+                             want, scale=float(np.abs(want).max()) + 1e-300)
+        else:
+            ctx.oracle(clause, np.shape(y) == np.shape(x) and np.asarray(y).dtype == np.asarray(x).dtype and
+                       np.array_equal(np.asarray(y), before[k]), {'leaf': k})
+    z = np.asarray(out['zeros'])
+    ctx.oracle('an identically zero spectrum stays identically zero', bool(np.all(z == 0.0)))
+    oh = np.asarray(out['onehot_top']); mask = onehot != 0
+    ctx.oracle('a single coefficient at the highest retained wavenumber stays a single coefficient',
+               bool(np.all(oh[~mask] == 0.0)) and bool(np.all(np.abs(oh[mask]) <= np.abs(onehot[mask]))), {'values': oh[mask].tolist()})
+
+
 def r_incompatible(ctx, a):
     jax, jnp, filtering, sh, ti = J()
-    grid = grid_of(a['grid']); lw = lw_of(grid); L = len(lw)
+    grid = grid_of(a['grid']); lw = lw_of(ctx, a['grid'], grid); L = len(lw)
     clause = 'leaves without the spectral shape are returned unchanged'
     fs = [filtering.exponential_filter(grid, 16.0, 2, 0.0), filtering.horizontal_diffusion_filter(grid, 0.1, 1),
           (lambda t, f=ti.exponential_step_filter(grid, 0.5, 0.25): f(None, t)),
@@ -516,7 +634,7 @@ def r_incompatible(ctx, a):
 
 def r_array_strength(ctx, a):
     jax, jnp, filtering, sh, ti = J()
-    grid = grid_of(a['grid']); lw = lw_of(grid); L = len(lw); Mm = int(grid.modal_shape[0]); K = a['K']; r = float(grid.radius)
+    grid = grid_of(a['grid']); lw = lw_of(ctx, a['grid'], grid); L = len(lw); Mm = int(grid.modal_shape[0]); K = a['K']; r = float(a['grid']['radius'])
     rng = np.random.default_rng(a['dseed'])
     st = [float(s) for s in a['strengths']]; T = len(st); lead = a['lead']; kind = a['kind']; par = a['par']
     ashape = [T] + [1] * (lead - 1)
@@ -542,14 +660,27 @@ def r_array_strength(ctx, a):
     f = mk(arr)
     lshape = [T] + ([K] if lead == 4 else []) + [Mm, L]
     x = _data(rng, lshape)
-    tree = {'x': x, 'ones': np.ones(sshape), 'lower': _data(rng, lshape[1:]), 't': 0.5}
+    surf = list(lshape); surf[1 if lead == 4 else 0] = 1      # size-1 level axis ("surface" field)
+    tree = {'x': x, 'ones': np.ones(sshape), 'lower': _data(rng, lshape[1:]), 't': 0.5,
+            'batched': _data(rng, [2] + lshape), 'surface': _data(rng, surf), 'ints': (np.arange(int(np.prod(lshape))).reshape(lshape) % 5 - 2)}
     out, ok = _apply(ctx, 'array-valued strengths are accepted', f, tree)
     if not ok: return
     ctx.corr('scaling for array-valued strength (filter applied to ones(scaling.shape))', np.asarray(out['ones']), [Fraction(v) for v in sc], scale=1.0)
     for i in range(T):
         _log_corr(ctx, kind + ' array-valued strength, slice %d' % i, np.asarray(out['ones']).reshape(T, L)[i], m[lead + i * L: lead + (i + 1) * L])
-    for k in ('x', 'ones', 'lower', 't'):
+    scn = np.asarray(sc, dtype=np.float64).reshape(sshape)
+    for k in ('x', 'ones', 'lower', 't', 'batched', 'surface', 'ints'):
         _leaf_check(ctx, kind + ' array strength', sshape, sc, tree[k], out[k])
+        xs = np.shape(tree[k])
+        try:
+            keep = tuple(np.broadcast_shapes(xs, tuple(sshape))) == tuple(xs)
+        except ValueError:
+            keep = False
+        ref = np.asarray(tree[k], dtype=np.float64) * scn if keep else np.asarray(tree[k])
+        ctx.oracle_close('array-valued strengths: leaf equals numpy broadcasting of the scaling (or is unchanged)',
+                         np.asarray(out[k], dtype=np.float64), np.asarray(ref, dtype=np.float64),
+                         scale=float(np.abs(np.asarray(tree[k], dtype=np.float64)).max()) + 1e-300)
+        ctx.count('array leaf %s rescaled:%d' % (k, keep))
     for i in range(T):
         fi = mk(st[i])
         oi = fi({'x': x[i]})['x']
@@ -603,6 +734,142 @@ def r_robert_asselin(ctx, a):
     ctx.count('ra linear:%d' % a['linear'])
 
 
+def _factories(grid, r):
+    """Every filter factory of the property with fixed non-default parameters: name -> (constructor, model cmd, ints tail p, params)."""
+    jax, jnp, filtering, sh, ti = J()
+    rk = lambda mk: (lambda: (lambda t, f=mk(): f(None, t)))
+    lf = lambda mk: (lambda: (lambda t, f=mk(): f(None, (t, t))[1]))
+    return {
+        'exponential_filter': (lambda: filtering.exponential_filter(grid, 16.0, 2, 0.25), 2, 2, [16.0, 0.25]),
+        'horizontal_diffusion_filter': (lambda: filtering.horizontal_diffusion_filter(grid, 0.01, 2), 3, 2, [0.01, r]),
+        'exponential_step_filter': (rk(lambda: ti.exponential_step_filter(grid, 0.5, 0.25, 2, 0.25)), 4, 2, [0.5, 0.25, 0.25]),
+        'exponential_leapfrog_step_filter': (lf(lambda: ti.exponential_leapfrog_step_filter(grid, 0.75, 0.25, 1, 0.0)), 4, 1, [0.75, 0.25, 0.0]),
+        'horizontal_diffusion_step_filter': (rk(lambda: ti.horizontal_diffusion_step_filter(grid, 0.5, 2.0, 1)), 5, 1, [0.5, 2.0, r]),
+        'horizontal_diffusion_step_filter order 2': (rk(lambda: ti.horizontal_diffusion_step_filter(grid, 3.0, 2.0, 2)), 5, 2, [3.0, 2.0, r]),
+    }
+
+
+def r_purity(ctx, a):
+    """Repeated / interleaved construction of every filter factory on the SAME Grid instance, on a second grid that
+    differs in one option, and on fresh instances: bit-identical factors, cached grid tables untouched."""
+    jax, jnp, filtering, sh, ti = J()
+    gA, gB = a['gridA'], a['gridB']
+    def facs(grid, spec):
+        ms = tuple(expected_layout(spec)[0])
+        return {k: np.asarray(v[0]()({'x': np.ones((2,) + ms)})['x']) for k, v in _factories(grid, float(spec['radius'])).items()}
+    def tables(grid):
+        return [np.array(grid.laplacian_eigenvalues, copy=True), np.array(grid.modal_axes[0], copy=True), np.array(grid.modal_axes[1], copy=True)]
+    A = new_grid(gA); B = new_grid(gB)
+    if a['first'] == 'B': facs(B, gB)
+    tA = tables(A)
+    runs = [facs(A, gA), facs(A, gA)]
+    FB = [facs(B, gB)]
+    runs.append(facs(A, gA)); FB.append(facs(B, gB)); runs.append(facs(A, gA))
+    runs.append(facs(new_grid(gA), gA)); FB.append(facs(new_grid(gB), gB))
+    for k in runs[0]:
+        ctx.oracle('constructing a filter repeatedly on the same Grid gives bit-identical factors (' + k + ')',
+                   all(np.array_equal(runs[0][k], r_[k]) for r_ in runs[1:]) and all(np.array_equal(FB[0][k], r_[k]) for r_ in FB[1:]),
+                   {'first': runs[0][k][0, 0].tolist(), 'later': [r_[k][0, 0].tolist() for r_ in runs[1:]]})
+    tA2 = tables(A)
+    ctx.oracle('filter construction does not modify the cached tables of the Grid', all(np.array_equal(x, y) for x, y in zip(tA, tA2)))
+    for spec, grid, F in ((gA, A, runs[-2]), (gB, B, FB[1])):
+        lw = lw_of(ctx, spec, grid); L = len(lw); rr = float(spec['radius'])
+        eig_ref = -np.asarray(lw, dtype=np.float64) * (np.asarray(lw, dtype=np.float64) + 1) / rr ** 2
+        ctx.oracle_close('laplacian_eigenvalues = -l(l+1)/r^2 after all constructions', np.asarray(grid.laplacian_eigenvalues, dtype=np.float64), eig_ref)
+        for k, (mk, cmd, p, pars) in _factories(grid, rr).items():
+            exps = ctx.model.call(cmd, [L, p] + lw, [pars])
+            ctx.corr(k + ' factors after repeated construction', F[k], [Fraction(fexp(q)) for q in exps] * (F[k].size // L), scale=1.0)
+            _log_corr(ctx, k + ' after repeated construction', F[k], exps)
+            _factor_oracles(ctx, k + ' (repeated construction)', F[k], lw, exps)
+    # one filter object applied repeatedly, interleaved, and under jit
+    ms = tuple(expected_layout(gA)[0]); rng = np.random.default_rng(a['dseed'])
+    x = {'x': _data(rng, (2,) + ms), 't': 1.5}; x0 = np.array(x['x'], copy=True)
+    for k, v in _factories(A, float(gA['radius'])).items():
+        f = v[0](); y1 = f(x); f({'x': np.ones((1,) + ms), 't': 0.0}); y2 = f(x)
+        ctx.oracle('applying one filter repeatedly gives bit-identical results and leaves its input alone (' + k + ')',
+                   np.array_equal(np.asarray(y1['x']), np.asarray(y2['x'])) and np.array_equal(x['x'], x0) and y2['t'] == 1.5)
+        if a.get('jit'):
+            yj = jax.jit(f)(x)
+            ctx.oracle_close('jit(filter) = filter (' + k + ')', np.asarray(yj['x']), np.asarray(y1['x']), scale=float(np.abs(x0).max()), tol_rel=1e-14)
+            ctx.oracle('jit(filter) leaves the clock unchanged', float(yj['t']) == 1.5 and np.shape(yj['t']) == ())
+    ctx.count('purity pair %s/%s' % (gA['impl'], gB['impl']))
+
+
+def r_defaults(ctx, a):
+    """Documented default arguments: attenuation 16, order 18, cutoff 0; tau = 0.010938; diffusion order 1."""
+    jax, jnp, filtering, sh, ti = J()
+    g = a['grid']; grid = grid_of(g); lw = lw_of(ctx, g, grid); L = len(lw); r = float(g['radius']); ms = tuple(expected_layout(g)[0])
+    ones = {'x': np.ones((1,) + ms)}
+    dt = a['dt']
+    cases = {
+        'exponential_filter()': (lambda: filtering.exponential_filter(grid)(ones)['x'], 2, 18, [16.0, 0.0]),
+        'exponential_filter(attenuation)': (lambda: filtering.exponential_filter(grid, 3.0)(ones)['x'], 2, 18, [3.0, 0.0]),
+        'exponential_filter(order=)': (lambda: filtering.exponential_filter(grid, order=3)(ones)['x'], 2, 3, [16.0, 0.0]),
+        'exponential_filter(cutoff=)': (lambda: filtering.exponential_filter(grid, cutoff=0.5)(ones)['x'], 2, 18, [16.0, 0.5]),
+        'horizontal_diffusion_filter(scale)': (lambda: filtering.horizontal_diffusion_filter(grid, 0.02)(ones)['x'], 3, 1, [0.02, r]),
+        'exponential_step_filter(dt)': (lambda: ti.exponential_step_filter(grid, dt)(None, ones)['x'], 4, 18, [dt, 0.010938, 0.0]),
+        'exponential_step_filter(dt, tau)': (lambda: ti.exponential_step_filter(grid, dt, 0.5)(None, ones)['x'], 4, 18, [dt, 0.5, 0.0]),
+        'exponential_step_filter(cutoff=)': (lambda: ti.exponential_step_filter(grid, dt, cutoff=0.25)(None, ones)['x'], 4, 18, [dt, 0.010938, 0.25]),
+        'exponential_leapfrog_step_filter(dt)': (lambda: ti.exponential_leapfrog_step_filter(grid, dt)(None, (ones, ones))[1]['x'], 4, 18, [dt, 0.010938, 0.0]),
+        'exponential_leapfrog_step_filter(order=)': (lambda: ti.exponential_leapfrog_step_filter(grid, dt, order=2)(None, (ones, ones))[1]['x'], 4, 2, [dt, 0.010938, 0.0]),
+        'horizontal_diffusion_step_filter(dt, tau)': (lambda: ti.horizontal_diffusion_step_filter(grid, dt, 0.5)(None, ones)['x'], 5, 1, [dt, 0.5, r]),
+    }
+    for k, (run, cmd, p, pars) in cases.items():
+        fac = np.asarray(run())
+        exps = ctx.model.call(cmd, [L, p] + lw, [pars])
+        ctx.corr(k + ' with default arguments', fac, [Fraction(fexp(q)) for q in exps] * (fac.size // L), scale=1.0)
+        _log_corr(ctx, k + ' with default arguments', fac, exps)
+        _factor_oracles(ctx, k, fac, lw, exps)
+
+
+def r_make_filter(ctx, a):
+    """filtering._make_filter_fn with an arbitrary scaling array on leaves of arbitrary shapes."""
+    jax, jnp, filtering, sh, ti = J()
+    rng = np.random.default_rng(a['dseed'])
+    ss = a['sshape']; scal = (rng.integers(1, 17, size=tuple(ss)) / 16.0).astype(np.float64)
+    f = filtering._make_filter_fn(jnp.asarray(scal) if a['jnp'] else scal, 'name' if a['jnp'] else None)
+    tree = {'l%d' % i: (_data(rng, s) if s else np.asarray(0.75)) for i, s in enumerate(a['shapes'])}
+    tree['py'] = 2.0
+    clause = 'leaves without the spectral shape are returned unchanged'
+    out, ok = _apply(ctx, clause, f, tree)
+    if not ok: return
+    for k, x in tree.items():
+        xs = tuple(np.shape(x))
+        try:
+            keep = tuple(np.broadcast_shapes(xs, tuple(ss))) == xs
+        except ValueError:
+            keep = False
+        _leaf_check(ctx, '_make_filter_fn', ss, scal.ravel().tolist(), x, out[k])
+        ref = np.asarray(x, dtype=np.float64) * scal if keep else np.asarray(x, dtype=np.float64)
+        if keep:
+            ctx.oracle_close('a leaf is multiplied by the broadcast scaling iff broadcasting preserves its shape', np.asarray(out[k], dtype=np.float64), ref,
+                             scale=float(np.abs(ref).max()) + 1e-300)
+        else:
+            ctx.oracle(clause, np.shape(out[k]) == xs and np.array_equal(np.asarray(out[k]), np.asarray(x)), {'leaf': list(xs), 'scaling': ss})
+        ctx.count('make_filter keep:%d' % keep)
+
+
+def r_array_order(ctx, a):
+    """`order` given as an array (documented int | Array): slice i behaves like the scalar order i."""
+    jax, jnp, filtering, sh, ti = J()
+    g = a['grid']; grid = grid_of(g); lw = lw_of(ctx, g, grid); L = len(lw); ms = tuple(expected_layout(g)[0])
+    ps = a['orders']; T = len(ps)
+    parr = np.asarray(ps).reshape((T, 1, 1, 1))
+    f = filtering.exponential_filter(grid, a['a'], parr, a['c'])
+    ones = np.ones((T, 2) + ms)
+    out, ok = _apply(ctx, 'array-valued order is accepted', f, {'x': ones, 't': 0.5})
+    if not ok: return
+    fac = np.asarray(out['x'])
+    for i, p in enumerate(ps):
+        exps = ctx.model.call(2, [L, int(p)] + lw, [[a['a'], a['c']]])
+        ctx.corr('array-valued order, slice %d' % i, fac[i], [Fraction(fexp(q)) for q in exps] * (fac[i].size // L), scale=1.0)
+        _log_corr(ctx, 'array-valued order, slice %d' % i, fac[i], exps)
+        _factor_oracles(ctx, 'exponential_filter(order array) slice %d' % i, fac[i], lw, exps)
+        fi = np.asarray(filtering.exponential_filter(grid, a['a'], int(p), a['c'])(ones[i]))
+        ctx.oracle_close('array-valued order acts on slice i like the scalar order i', fac[i], fi, scale=1.0, tol_rel=1e-13)
+    ctx.oracle('clock leaf untouched', out['t'] == 0.5)
+
+
 def r_ra_int(ctx, a):
     jax, jnp, filtering, sh, ti = J()
     r = a['r']; st = a['stride']
@@ -634,4 +901,5 @@ def r_ra_int(ctx, a):
 
 RUNNERS = {'shapes': r_shapes, 'expfilter': r_expfilter, 'hdfilter': r_hdfilter, 'expstep': r_expstep, 'hdstep': r_hdstep,
            'tree': r_tree, 'incompatible_leaf': r_incompatible, 'array_strength': r_array_strength,
-           'robert_asselin': r_robert_asselin, 'ra_int': r_ra_int}
+           'robert_asselin': r_robert_asselin, 'ra_int': r_ra_int,
+           'purity': r_purity, 'defaults': r_defaults, 'make_filter': r_make_filter, 'array_order': r_array_order}
